@@ -380,6 +380,10 @@ pub fn sweep(tier: Tier) -> Sweep {
                 hists.push((0..LEN).map(|i| pat[i % period]).collect());
             }
         }
+        // period-1 histories of 2000 calls: slow numerical drift of the covariance
+        for e in &pruned {
+            hists.push(vec![*e; 2000]);
+        }
         let n_base = hists.len();
         for period in 1..=tier.pick(1usize, 2usize) {
             for pat in enumerate(&pruned, period) {
